@@ -24,6 +24,15 @@ var minimalEncodings = []minimalEncoding{
 	{Pkg: "pkg/ipmi", Type: "FullSensorRecord", Method: "DecodeFromBytes", Name: "empty packed 6-bit ID string", Len: 43, Bytes: map[int64]int64{42: 0x80}, Ref: "IPMI v2.0 §43.15"},
 	{Pkg: "pkg/ipmi", Type: "FullSensorRecord", Method: "DecodeFromBytes", Name: "empty BCD-plus ID string", Len: 43, Bytes: map[int64]int64{42: 0x40}, Ref: "IPMI v2.0 §43.15"},
 	{Pkg: "pkg/ipmi", Type: "FullSensorRecord", Method: "DecodeFromBytes", Name: "16-character 8-bit ASCII ID string", Len: 59, Bytes: map[int64]int64{42: 0xD0}, Ref: "IPMI v2.0 §43.1: ID string up to 16 bytes"},
+	// the type/length byte's count is five bits: 31 characters is a legal length in every encoding
+	{Pkg: "pkg/ipmi", Type: "FullSensorRecord", Method: "DecodeFromBytes", Name: "31-character 8-bit ASCII ID string", Len: 74, Bytes: map[int64]int64{42: 0xDF}, Ref: "IPMI v2.0 §43.15: length in bits [4:0]"},
+	{Pkg: "pkg/ipmi", Type: "FullSensorRecord", Method: "DecodeFromBytes", Name: "31-character packed 6-bit ID string", Len: 67, Bytes: map[int64]int64{42: 0x9F}, Ref: "IPMI v2.0 §43.15: 31 characters in 24 bytes"},
+	{Pkg: "pkg/ipmi", Type: "FullSensorRecord", Method: "DecodeFromBytes", Name: "31-character BCD-plus ID string", Len: 59, Bytes: map[int64]int64{42: 0x5F}, Ref: "IPMI v2.0 §43.15: 31 characters in 16 bytes"},
+	// the SDR header of every record type the repository may hold, OEM records (0xC0) included
+	{Pkg: "pkg/ipmi", Type: "SDR", Method: "DecodeFromBytes", Name: "header of an OEM record (type 0xC0)", Len: 5, Bytes: map[int64]int64{3: 0xC0}, Ref: "IPMI v2.0 §43 (record type C0h = OEM)"},
+	{Pkg: "pkg/ipmi", Type: "SDR", Method: "DecodeFromBytes", Name: "header of a Full Sensor Record (type 0x01)", Len: 5, Bytes: map[int64]int64{3: 0x01}, Ref: "IPMI v2.0 §43.1"},
+	{Pkg: "pkg/ipmi", Type: "SDR", Method: "DecodeFromBytes", Name: "header of a Compact Sensor Record (type 0x02)", Len: 5, Bytes: map[int64]int64{3: 0x02}, Ref: "IPMI v2.0 §43.2"},
+	{Pkg: "pkg/ipmi", Type: "SDR", Method: "DecodeFromBytes", Name: "header of a Management Controller Device Locator (type 0x12)", Len: 5, Bytes: map[int64]int64{3: 0x12}, Ref: "IPMI v2.0 §43.9"},
 	{Pkg: "pkg/ipmi", Type: "GetDeviceIDRsp", Method: "DecodeFromBytes", Name: "without auxiliary firmware revision", Len: 11, Ref: "IPMI v2.0 §20.1: bytes 13:16 optional"},
 	{Pkg: "pkg/ipmi", Type: "GetChassisStatusRsp", Method: "DecodeFromBytes", Name: "without front panel byte", Len: 3, Ref: "IPMI v2.0 §28.2: byte 5 optional"},
 	{Pkg: "pkg/ipmi", Type: "RAKPMessage2", Method: "DecodeFromBytes", Name: "error status", Len: 8, Bytes: map[int64]int64{1: 0x12}, Ref: "IPMI v2.0 §13.21: truncated after the session ID when status is non-zero"},
@@ -38,6 +47,8 @@ var minimalEncodings = []minimalEncoding{
 func acceptsMinimal(c *Ctx, fn *ssa.Function, m minimalEncoding) (bool, int) {
 	e := newLenflow(c, 6)
 	e.bits = true
+	// masks of the type/length byte are kept exact (31 characters stay 31)
+	e.wrapExact = true
 	ok := false
 	nSucc := 0
 	errIdx := errResultIndex(fn)
@@ -156,16 +167,7 @@ func checkC07(c *Ctx, r *Report) {
 	// the reply's body, however short (rule shared with C17)
 	checkResponseAlwaysDecoded(c, r)
 
-	r.Rule("accepts-minimal-encoding", "the decoder has a success path for the specification's shortest valid encodings", 10)
-	for _, m := range minimalEncodings {
-		fn := c.Method(m.Pkg, m.Type, m.Method)
-		if fn == nil {
-			r.Lost(m.Type + "." + m.Method)
-			continue
-		}
-		ok, n := acceptsMinimal(c, fn, m)
-		r.Check(ok, m.Type+"."+m.Method+"|"+m.Name, fn.Pos(), fmt.Sprintf("accepted (%d success paths examined)", n), fmt.Sprintf("no success path accepts a %d-byte %s (%s): a valid encoding is rejected", m.Len, m.Name, m.Ref))
-	}
+	checkMinimalEncodings(c, r, nil)
 
 	checkMessageChecksums(c, r)
 
@@ -241,4 +243,23 @@ func checkMessageChecksums(c *Ctx, r *Report) {
 		// and the compared values are the wire's own checksum bytes (layout: Checksum1 = d2, Checksum2 = last byte)
 	}
 
+}
+
+// checkMinimalEncodings: the decoders accept the specification's boundary encodings (shared, for
+// the record layers, with C14 — "any mix of record types … all ID-string encodings and
+// lengths" — and C20 — "ID strings of every length").
+func checkMinimalEncodings(c *Ctx, r *Report, only func(minimalEncoding) bool) {
+	r.Rule("accepts-minimal-encoding", "the decoder has a success path for the specification's shortest, longest and boundary encodings", 7)
+	for _, m := range minimalEncodings {
+		if only != nil && !only(m) {
+			continue
+		}
+		fn := c.Method(m.Pkg, m.Type, m.Method)
+		if fn == nil {
+			r.Lost(m.Type + "." + m.Method)
+			continue
+		}
+		ok, n := acceptsMinimal(c, fn, m)
+		r.Check(ok, m.Type+"."+m.Method+"|"+m.Name, fn.Pos(), fmt.Sprintf("accepted (%d success paths examined)", n), fmt.Sprintf("no success path accepts a %d-byte %s (%s): a valid encoding is rejected", m.Len, m.Name, m.Ref))
+	}
 }
